@@ -153,7 +153,7 @@ void run_case(Ctx& c) {
             int sv[2];
             if (::socketpair(AF_UNIX, SOCK_STREAM, 0, sv) != 0) continue;
             std::vector<std::uint8_t> bytes;
-            unsigned kind = r.op() % 6;
+            unsigned kind = r.op() % 8;
             if (kind >= 1) { auto idb = g.bytes(32); if (kind == 2) idb.assign(evil.id.begin(), evil.id.end()); bytes.insert(bytes.end(), idb.begin(), idb.end()); }
             if (kind == 0) bytes = g.bytes(r.a(0) % 80);
             if (kind >= 3) {
@@ -167,8 +167,40 @@ void run_case(Ctx& c) {
                 p.requested_version = static_cast<std::uint8_t>(r.a(2));
                 if (kind == 5) hs.payload = protocol::RequestPayload{cid(1), evil.id}; else hs.payload = p;
                 auto enc = protocol::encode(hs);
+                if (kind >= 6) {
+                    // the first frame of a connection is decoded before anything is authenticated: an ANNOUNCE / CHUNK
+                    // typed frame whose 32-bit length fields are huge or sum past 2^32
+                    protocol::Message am{};
+                    am.version = static_cast<std::uint8_t>(1 + r.a(1) % 4);
+                    static const std::uint32_t kTriples[][3] = {{0xFFFFFFF0u, 0x10u, 1u}, {0x80000000u, 0x80000000u, 0u}, {0xFFFFFFFFu, 1u, 0u}, {0xFFFFFFFFu, 0xFFFFFFFFu, 2u},
+                                                                {0u, 0xFFFFFFFFu, 1u}, {0x7FFFFFFFu, 0x7FFFFFFFu, 2u}, {0xFFFFFF00u, 0x80u, 0x80u}, {1u, 0xFFFFFFFEu, 1u}};
+                    if (kind == 6) {
+                        am.type = protocol::MessageType::Announce;
+                        protocol::AnnouncePayload a{};
+                        a.chunk_id = cid(1);
+                        a.peer_id = evil.id;
+                        a.endpoint = "127.0.0.1:9";
+                        a.manifest_uri = "eph://x";
+                        a.assigned_shards = {1};
+                        am.payload = a;
+                        enc = protocol::encode(am);
+                        const auto& tr = kTriples[r.a(2) % 8];
+                        for (int f = 0; f < 3 && enc.size() >= 18; ++f)
+                            for (int b = 0; b < 4; ++b) enc[6 + 4 * f + b] = static_cast<std::uint8_t>(tr[f] >> (24 - 8 * b));
+                    } else {
+                        am.type = protocol::MessageType::Chunk;
+                        protocol::ChunkPayload cp{};
+                        cp.chunk_id = cid(1);
+                        cp.data = g.bytes(r.a(2) % 40);
+                        am.payload = cp;
+                        enc = protocol::encode(am);
+                        static const std::uint32_t kLens[] = {0xFFFFFFFFu, 0xFFFFFFF8u, 0x80000000u, 0x7FFFFFFFu, 0xFFFFFFD8u, 0x100000u};
+                        for (int b = 0; b < 4 && enc.size() >= 10; ++b) enc[6 + b] = static_cast<std::uint8_t>(kLens[r.a(2) % 6] >> (24 - 8 * b));
+                        if (r.a(4) & 1) enc.resize(2 + r.a(4) % 8);   // fewer than 8 payload bytes
+                    }
+                }
                 std::uint32_t len = static_cast<std::uint32_t>(enc.size());
-                switch (r.a(3) % 5) { case 1: len = 0; break; case 2: len = 0xFFFFFFFFu; break; case 3: len += 7; break; case 4: if (!enc.empty()) enc.resize(enc.size() / 2); break; default: break; }
+                switch (kind >= 6 ? 0u : r.a(3) % 5) { case 1: len = 0; break; case 2: len = 0xFFFFFFFFu; break; case 3: len += 7; break; case 4: if (!enc.empty()) enc.resize(enc.size() / 2); break; default: break; }
                 bytes.push_back(static_cast<std::uint8_t>(len >> 24)); bytes.push_back(static_cast<std::uint8_t>(len >> 16)); bytes.push_back(static_cast<std::uint8_t>(len >> 8)); bytes.push_back(static_cast<std::uint8_t>(len));
                 bytes.insert(bytes.end(), enc.begin(), enc.end());
             }
